@@ -24,6 +24,15 @@
 #include "K_vwo_mult_assign.c"
 #include "K_vwo_div_assign.c"
 
+#include "K_vwo_init0.c"
+#include "K_vwo__destruct_and_deallocate.c"
+#include "K_vwo_recycle.c"
+#include "K_vwo_reserve.c"
+#include "K_vwo_resize.c"
+#include "K_vwo_grow.c"
+#include "K_vwo_assign.c"
+#include "K_arr1_resize.c"
+
 /* every state satisfying VWO_VALID: null vector, or a block of 1..VWO_MAXLEN elements with the live range anywhere
    inside it, owned or viewed */
 static void mk_vwo(struct VWO* v)
@@ -52,6 +61,29 @@ static void mk_vwo(struct VWO* v)
   v->num = buf + ((long)off - (long)start);
   v->allocated_memory_sptr = nondet_bool() ? buf : NULL;
 }
+/* ghosts describing the pre-state of `v` and an arbitrary element of it */
+static void set_ghosts(const struct VWO* v)
+{
+  g_error = 0; g_i = nondet_int(); g_j = nondet_int();
+  if (v->begin_allocated_memory == NULL) { g_cap0 = 0; g_off0 = 0; }
+  else { g_cap0 = VWO_CAP(v); g_off0 = VWO_OFF(v); }
+  g_p_ = NULL;
+  if (v->length > 0)
+    {
+      __CPROVER_assume(VWO_IN_RANGE(v, g_i));
+      g_p_ = &VWO_ELEM(v, g_i);
+    }
+}
+#define HB2(k) void h_##k(void) { struct VWO a; mk_vwo(&a); set_ghosts(&a); int lo = nondet_int(), hi = nondet_int(); k(&a, lo, hi); }
+HB2(K_vwo_reserve)
+HB2(K_vwo_resize)
+HB2(K_vwo_grow)
+HB2(K_arr1_resize)
+void h_K_vwo_init0(void) { struct VWO a; K_vwo_init0(&a); }
+void h_K_vwo__destruct_and_deallocate(void) { struct VWO a; mk_vwo(&a); K_vwo__destruct_and_deallocate(&a); }
+void h_K_vwo_recycle(void) { struct VWO a; mk_vwo(&a); K_vwo_recycle(&a); }
+void h_K_vwo_assign(void) { struct VWO a, b; mk_vwo(&a); mk_vwo(&b); set_ghosts(&b); if (nondet_bool()) K_vwo_assign(&a, &b); else K_vwo_assign(&a, &a); }
+
 
 #define H0(k) void h_##k(void) { struct VWO a; mk_vwo(&a); __CPROVER_assert(VWO_VALID(&a), "mk_vwo establishes VWO_VALID"); g_error = 0; g_i = nondet_int(); g_j = nondet_int(); k(&a); }
 H0(K_vwo_get_min_index)
@@ -89,6 +121,6 @@ static void mk_two(T** p, T** q, long* n)
   *p = (T*)malloc((size_t)(len + 1) * sizeof(T));
   *q = (T*)malloc((size_t)(len + 1) * sizeof(T));
 }
-void h_K_std_copy(void) { T *p, *q; long n; mk_two(&p, &q, &n); g_j = nondet_int(); K_std_copy(p, p + n, q); }
+void h_K_std_copy(void) { T *p, *q; long n; mk_two(&p, &q, &n); long k = nondet_long(); __CPROVER_assume(k >= -1 && k <= n); g_p_ = nondet_bool() ? (const void*)(p + k) : (const void*)(q + k); K_std_copy(p, p + n, q); }
 void h_K_std_fill(void) { T *p, *q; long n; mk_two(&p, &q, &n); g_j = nondet_int(); K_std_fill(p, p + n, q[0]); }
 void h_K_std_equal(void) { T *p, *q; long n; mk_two(&p, &q, &n); g_j = nondet_int(); K_std_equal(p, p + n, q); }
